@@ -144,6 +144,26 @@ theorem del_missing_keyError (ops : List (Op K V)) (hv : ∀ op ∈ ops, Op.vali
       rw [hrep.getitem_eq, h.getitem_eq, dget_filter_key _ (fun x => decide (x ≠ k))]
       by_cases hkk : k' = k <;> simp [hkk]
 
+/-- **C15.12b** the constructor `MultiKeyDict(mapping)` yields a coherent dict in which every key of
+    the mapping holds its (last) value -/
+theorem ofDict_coherent (items : List (K × V)) (k : K) :
+    Inv (ofDict items) ∧
+      getitem (ofDict items) k = lastAssigned k (items.map fun e => Op.set [e.1] e.2) none := by
+  have hv : ∀ op ∈ items.map (fun e => Op.set [e.1] e.2), Op.valid op := by
+    intro op hop
+    obtain ⟨e, _, rfl⟩ := List.mem_map.mp hop
+    simp [Op.valid]
+  exact ⟨inv_reachable _ hv, getitem_last_assigned _ hv k⟩
+
+/-- **C15.12c** the hypothesis `Op.valid` is needed: assigning with the *empty* key tuple leaves the
+    three maps incoherent — a value without keys, and after a second such assignment `len` (1) no
+    longer counts the values iteration yields (2).  (Recorded as a known finding of the code.) -/
+theorem empty_tuple_breaks_coherence :
+    let s := (run (St.empty : St Nat Nat) [.set [] 5, .set [] 6]).1
+    len s = 1 ∧ iterValues s = [5, 6] ∧ value2keys s 5 = [] ∧ ¬ Inv s := by
+  refine ⟨by decide, by decide, by decide, fun h => ?_⟩
+  exact h.tupNe (5, []) (by decide) rfl
+
 /-! ## StrategyDict -/
 
 /-- **C15.13** one StrategyDict operation (assignment, deletion, lookup, attribute access /
@@ -161,6 +181,17 @@ theorem sd_run_refines (ops : List (SOp K V)) (hv : ∀ op ∈ ops, SOp.valid op
       Inv (sdRun (SD.empty : SD K V) ops).1.mkd := by
   obtain ⟨h1, h2⟩ := sdRun_sim ops sdrep_empty hv
   exact ⟨h1, h2, h1.rep.inv⟩
+
+/-- **C15.14b** a StrategyDict iterates its strategies: every stored strategy exactly once -/
+theorem sd_iter_values (ops : List (SOp K V)) (hv : ∀ op ∈ ops, SOp.valid op) :
+    (sdIter (sdRun (SD.empty : SD K V) ops).1).Perm (specValues (sdSpecRun ({} : SDSpec K V) ops).1.log) ∧
+      len (sdRun (SD.empty : SD K V) ops).1.mkd = (sdIter (sdRun (SD.empty : SD K V) ops).1).length := by
+  obtain ⟨h1, _⟩ := sdRun_sim ops sdrep_empty hv
+  have hp := h1.rep.items_perm.map (·.2)
+  simp only [specItems, List.map_map] at hp
+  have hid : ((fun x : List K × V => x.2) ∘ fun v => (keysOf (sdSpecRun ({} : SDSpec K V) ops).1.log v, v)) = id := rfl
+  rw [hid, List.map_id] at hp
+  exact ⟨hp, by simp [sdIter, storeValues, len]⟩
 
 /-- **C15.15** every name is exposed as an attribute equal to the item (and no other name is):
     `getattr(sd, k)` = `sd[k]`, `AttributeError` exactly where `sd[k]` raises `KeyError` — after
@@ -278,6 +309,17 @@ example : dedupLast [1, 2, 1, 3, 2] = [1, 3, 2] := by decide
 example : lastAssigned 1 ([.set [1, 2] 0, .set [2] 5, .del 2, .set [3, 1] 7] : List (Op Nat Nat)) none
     = some 7 := by decide
 
+/-- `Inv` / `Rep` hold on a state with merged, overwritten and deleted keys -/
+example : Inv (run (St.empty : St Nat Nat) [.set [1, 2] 3, .set [4] 3, .set [2] 7, .del 1]).1 :=
+  inv_reachable _ (by intro op h; simp at h; rcases h with rfl | rfl | rfl | rfl <;> simp [Op.valid])
+example : Rep (run (St.empty : St Nat Nat) [.set [1, 2] 3, .set [4] 3, .set [2] 7, .del 1]).1 [(4, 3), (2, 7)] :=
+  (run_refines _ (by intro op h; simp at h; rcases h with rfl | rfl | rfl | rfl <;> simp [Op.valid])).1
+example : (run (St.empty : St Nat Nat) [.set [1, 2] 3, .set [4] 3, .set [2] 7, .del 1]).1.store
+    = [([2], 7), ([4], 3)] := by decide
+/-- hypotheses of C15.16 / C15.18 / C15.19 on reachable states -/
+example : sdDefault (sdRun (SD.empty : SD Nat Nat) [.set [1] 10, .set [2] 20, .del 1]).1 = none := by decide
+example : sdDefault (sdRun (SD.empty : SD Nat Nat) [.set [1, 2] 10, .set [3] 20]).1 = some 10 ∧
+    value2keys (sdRun (SD.empty : SD Nat Nat) [.set [1, 2] 10, .set [3] 20]).1.mkd 10 = [1, 2] := by decide
 /-- the docstring example of `StrategyDict`, then the default losing its only name -/
 example : (sdRun (SD.empty : SD Nat Nat)
     [.set [1] 10, .set [2, 3] 20, .call, .getattr 3, .del 1, .call, .set [4] 30, .default, .delattr (some 4),
